@@ -9,6 +9,16 @@ REPO = os.environ.get("VERIF_REPO", "/repo")
 _CACHE = {}
 
 
+def load_mir_crate(scratch, subdir):
+    """MIR of a workspace member (its own `cargo +nightly rustc --lib`), cached per run"""
+    key = "funcs:" + subdir
+    if key not in _CACHE:
+        rc, txt, err, dt = MIR.dump(os.path.join(REPO, subdir), scratch, features=(), default_features=True)
+        _CACHE[key] = MIR.parse(txt) if rc == 0 and len(txt) > 1000 else None
+        _CACHE["err:" + subdir] = err[-500:]
+    return _CACHE[key]
+
+
 def load_mir(scratch):
     if "funcs" in _CACHE:
         return _CACHE["funcs"], _CACHE["info"]
@@ -236,7 +246,161 @@ def run_bounds(funcs, o, tier):
     return rec
 
 
+def run_guard(funcs, o, tier):
+    """kind="guard": value-aware guard obligations (mirbv, lenient mode).
+    `bodies`: regexes of functions / parents; for a parent every bool-returning closure that calls
+    the subject is taken (mode "closure_true": the closure must return true only when the subject
+    has the required variant); for a function with a `target` call (mode "before_call") every path
+    that reaches the target must have the subject call's result equal to the required variant
+    (a path that never asked counts as a violation). Everything the executor does not understand is
+    an unconstrained value (over-approximation: can only add paths)."""
+    import bv as BVX
+    spec = o["spec"]
+    rec = dict(o); rec.pop("spec", None); rec["spec"] = o["id"]; rec["native"] = spec.get("native")
+    t0 = time.time()
+    req = BVX.variant_const(spec["required"][0], spec["required"][1])
+    queries = 0; solver_s = 0.0; failed = []; detail = {"sites": []}; encoded = []
+    verdict = "discharged"; reason = None; witnessed = True
+    for site in spec["sites"]:
+        mode = site["mode"]
+        names = find_roots(funcs, site["body"])
+        bodies = []
+        for n in names:
+            for f in funcs[n]:
+                has_subject = any(b.kind == "call" and re.search(spec["subject"], b.call["callee"]) for b in f.blocks.values())
+                if mode == "closure_true" and not (f.ret.strip() == "bool" and has_subject):
+                    continue
+                if mode == "before_call" and not any(b.kind == "call" and re.search(site["target"], b.call["callee"]) for b in f.blocks.values()):
+                    continue
+                bodies.append(f)
+        if len(bodies) != site.get("expect", 1):
+            verdict = "inconclusive" if verdict != "violated" else verdict
+            reason = "guard site %r resolves to %d bodies (expected %d)" % (site["body"], len(bodies), site.get("expect", 1))
+            continue
+        for f in bodies:
+            ex = BVX.Exec(funcs, lenient=True, subject=(spec["subject"], "subj"), target=site.get("target"))
+            try:
+                nargs = len(re.findall(r"_\d+: ", f.params or ""))
+                outs = ex.run(f, [BVX.OPAQUE("arg") for _ in range(nargs)])
+            except BVX.Unsupported as e:
+                verdict = "inconclusive" if verdict != "violated" else verdict
+                reason = "bv execution of %s: %r" % (f.name, e)
+                continue
+            encoded.append(f.name)
+            if ex.cut:
+                verdict = "inconclusive" if verdict != "violated" else verdict
+                reason = "%d path(s) of %s were cut (loop before the guard): incomplete" % (ex.cut, f.name)
+                continue
+            if mode == "closure_true":
+                pass_paths = [BVX.conj(cs + [v["e"]]) for cs, v in outs if v["k"] == "bool"]
+                pass_paths += [BVX.conj(cs) for cs, v in outs if v["k"] == "opaque"]
+            else:
+                pass_paths = [BVX.conj(cs) for cs, _ in ex.hits]
+            consts = set(ex.consts) | {req}
+            head = ["(set-logic QF_BV)", "(declare-const subj (_ BitVec 64))"] + ["(declare-const %s (_ BitVec 64))" % c for c in sorted(consts)]
+            if len(consts) > 1:
+                head.append("(assert (distinct %s))" % " ".join(sorted(consts)))
+            sd = {"body": f.name, "mode": mode, "paths_passing_guard": len(pass_paths)}
+            if not pass_paths:
+                verdict = "inconclusive" if verdict != "violated" else verdict
+                reason = "no path of %s passes the guard / reaches the target" % f.name
+                detail["sites"].append(sd)
+                continue
+            passing = "(or %s)" % " ".join(pass_paths) if len(pass_paths) > 1 else pass_paths[0]
+            q_bad = "\n".join(head + ["(assert %s)" % passing, "(assert (not (= subj %s)))" % req, "(check-sat)"])
+            q_wit = "\n".join(head + ["(assert %s)" % passing, "(assert (= subj %s))" % req, "(check-sat)"])
+            r1, _, d1 = _smt(q_bad, "z3"); r2, _, d2 = _smt(q_bad, "cvc5"); rw, _, d3 = _smt(q_wit, "z3")
+            queries += 3; solver_s += d1 + d2 + d3
+            sd.update(z3=r1, cvc5=r2, witness=rw)
+            if rw != "sat":
+                witnessed = False
+            if r1 != r2 or r1 not in ("sat", "unsat"):
+                verdict = "inconclusive" if verdict != "violated" else verdict
+                reason = "solvers disagree / error on %s: %s / %s" % (f.name, r1, r2)
+            elif r1 == "sat":
+                verdict = "violated"
+                failed.append({"class": "mirbv", "file": f.name, "line": f.line,
+                               "desc": "%s: %s with %s other than %s::%s" % (f.name.split("::")[-2] + "::" + f.name.split("::")[-1],
+                                       "the guard passes" if mode == "closure_true" else "the target call is reached",
+                                       spec["subject"], spec["required"][0], spec["required"][1])})
+            detail["sites"].append(sd)
+    rec.update(verdict=verdict, reason=reason, queries=queries, solver_s=round(solver_s, 3), failed=failed,
+               witnessed=witnessed and verdict == "discharged", detail=detail, functions=sorted(encoded),
+               wall_s=round(time.time() - t0, 2), bounds=o.get("bounds") or "every path of the named bodies; unknown values unconstrained")
+    return rec
+
+
+def run_sortkey(funcs_unused, o, tier, scratch):
+    """kind="sortkey": the closure that turns a numerical value into the u64 key a fresh segment of a
+    sorted index is ordered by is executed as a bit-vector program, once per integer variant, on
+    two symbolic values a, b: a < b (in the variant's own order) iff key(a) < key(b) (unsigned)."""
+    import bv as BVX
+    spec = o["spec"]
+    rec = dict(o); rec.pop("spec", None); rec["spec"] = o["id"]
+    t0 = time.time()
+    funcs = load_mir_crate(scratch, spec["crate"])
+    if funcs is None:
+        rec.update(verdict="inconclusive", reason="MIR dump of %s failed: %s" % (spec["crate"], _CACHE.get("err:" + spec["crate"], "")), wall_s=0)
+        return rec
+    cands = [f for n in find_roots(funcs, spec["closure"]) for f in funcs[n]
+             if re.search(spec["param"], f.params or "") and f.ret.strip() == spec["ret"]]
+    if len(cands) != 1:
+        rec.update(verdict="inconclusive", reason="sort-key closure pattern resolves to %d bodies" % len(cands), wall_s=round(time.time() - t0, 2))
+        return rec
+    f = cands[0]
+    queries = 0; solver_s = 0.0; failed = []; detail = {"closure": f.name, "variants": []}
+    verdict = "discharged"; reason = None; witnessed = True; summaries = set()
+    for variant, ty in spec["variants"]:
+        w, signed = BVX.INT_TYPES[ty]
+        keys = []
+        try:
+            for nm in ("a", "b"):
+                ex = BVX.Exec(funcs)
+                outs = ex.run(f, [None, BVX.ENUM(spec["enum"], variant, [BVX.BV(nm, w, signed)])])
+                summaries |= set(ex.summaries_used)
+                if len(outs) != 1 or outs[0][1].get("variant") != "Some":
+                    raise BVX.Unsupported("%d paths / not Some(..) for variant %s" % (len(outs), variant))
+                keys.append((BVX.conj(outs[0][0]), outs[0][1]["fields"][0]["e"]))
+        except BVX.Unsupported as e:
+            verdict = "inconclusive" if verdict != "violated" else verdict
+            reason = "bv execution for variant %s: %r" % (variant, e)
+            continue
+        lt = "bvslt" if signed else "bvult"
+        head = ["(set-logic QF_BV)", "(declare-const a (_ BitVec %d))" % w, "(declare-const b (_ BitVec %d))" % w]
+        q = "\n".join(head + ["(assert %s)" % keys[0][0], "(assert %s)" % keys[1][0],
+                               "(assert (xor (%s a b) (bvult %s %s)))" % (lt, keys[0][1], keys[1][1]), "(check-sat)", "(get-value (a b))"])
+        r1, out1, d1 = _smt(q, "z3"); r2, _, d2 = _smt(q, "cvc5")
+        qw = "\n".join(head + ["(assert (%s a b))" % lt, "(assert (bvult %s %s))" % (keys[0][1], keys[1][1]), "(check-sat)"])
+        rw, _, d3 = _smt(qw, "z3")
+        queries += 3; solver_s += d1 + d2 + d3
+        vd = {"variant": variant, "type": ty, "z3": r1, "cvc5": r2, "witness": rw}
+        if rw != "sat":
+            witnessed = False
+        if r1 != r2 or r1 not in ("sat", "unsat"):
+            verdict = "inconclusive" if verdict != "violated" else verdict
+            reason = "solvers disagree / error on variant %s: %s / %s" % (variant, r1, r2)
+        elif r1 == "sat":
+            mv = dict(re.findall(r"\((a|b) #x([0-9a-f]+)\)", out1))
+            sg = lambda v: v - (1 << w) if signed and v >= (1 << (w - 1)) else v
+            av, bv_ = sg(int(mv.get("a", "0"), 16)), sg(int(mv.get("b", "0"), 16))
+            vd["counterexample"] = {"a": av, "b": bv_}
+            verdict = "violated"
+            failed.append({"class": "mirbv", "file": f.name, "line": f.line,
+                           "desc": "sort key of %s values is not order preserving: a = %d, b = %d" % (ty, av, bv_),
+                           "probe": ["sorted_segment", ty, str(av), str(bv_)]})
+        detail["variants"].append(vd)
+    rec.update(verdict=verdict, reason=reason, queries=queries, solver_s=round(solver_s, 3), failed=failed,
+               native=[tuple(x["probe"]) for x in failed[:2]] or None, witnessed=witnessed and verdict == "discharged",
+               detail=detail, functions=[f.name], assumes=list(o.get("assumes", [])) + ["summary: " + s_ for s_ in sorted(summaries)],
+               wall_s=round(time.time() - t0, 2), bounds=o.get("bounds") or "all pairs of 64-bit values per integer variant")
+    return rec
+
+
 def run_one(funcs, o, tier):
+    if o["spec"].get("kind") == "sortkey":
+        return run_sortkey(funcs, o, tier, _CACHE.get("scratch", "/tmp"))
+    if o["spec"].get("kind") == "guard":
+        return run_guard(funcs, o, tier)
     if o["spec"].get("kind") == "scan":
         return run_scan(funcs, o, tier)
     if o["spec"].get("kind") == "bounds":
@@ -366,6 +530,7 @@ def run_one(funcs, o, tier):
 
 
 def run(mobls, scratch, tier):
+    _CACHE["scratch"] = scratch
     funcs, info = load_mir(scratch)
     recs = []
     if funcs is None:
